@@ -27,6 +27,7 @@ BOUNDS = {
     "quick": "shapes m,n<=3 (all rectangular), pool of 24 matrices per shape from 14 integer-modulus letters, all ordered pairs, triples of an 6-matrix sub-pool, 5 scalars, 7 valid + 9 invalid ord spellings; definition cells at whole-matrix scalings 1, 1/2, 2^20, 2^-60, 2^-200, 2^200; larger shapes and 15 component masks",
     "thorough": "shapes<=5",
 }
+THOROUGH_STREAMS = 8
 WALL_BUDGET = {"quick": 300, "thorough": 2400}
 ASSUMPTIONS = ["2-norm compared with LAPACK singular values of the complex adjoint (budget 2^10 u ||A||)"]
 
